@@ -95,6 +95,8 @@ impl Ctx {
             enable_stable_row_ids: self.stable_row_ids,
             enable_v2_manifest_paths: self.v2_paths,
             data_storage_version: Some(self.storage_version),
+            // no implicit auto-cleanup configuration: cleanup is an explicit, modelled operation
+            auto_cleanup: None,
             ..Default::default()
         }
     }
